@@ -249,8 +249,8 @@ Proof.
   - cbn [res_rel]. repeat split; try assumption; try reflexivity; apply Hrel.
 Qed.
 
-Lemma parse_repr_rfc d t p : wf_bytes p = true -> trel d t ->
-  res_rel d (parse_repr huff_decode_spec d p) (rfc_repr (dallowed d) t p).
+Lemma parse_repr_rfc first d t p : wf_bytes p = true -> trel d t ->
+  res_rel d (parse_repr huff_decode_spec first d p) (rfc_repr (dallowed d) first t p).
 Proof.
   intros Hw Hrel. destruct p as [|b p0]; [first [exact I | assumption | reflexivity]|]. unfold parse_repr, rfc_repr.
   destruct (128 <=? b) eqn:E128.
@@ -274,7 +274,7 @@ Proof.
            assert (16 <=? b = true) as -> by lia. cbn [andb].
            apply (literal_rfc d t (b :: p0) 4 2 false true); auto; lia.
         -- assert ((32 <=? b) && (b <? 64) = true) as -> by lia.
-           unfold parse_size_update.
+           unfold parse_size_update. destruct first; cbn [negb]; [|reflexivity].
            pose proof (read_varint_rfc 5 (b :: p0) ltac:(lia) Hw) as Hv.
            destruct (read_varint 5 (b :: p0)) as [v r| |c|] eqn:E1; destruct (rfc_int 5 (b :: p0)) as [v' r'|] eqn:E2;
              cbn [rd_rfc] in Hv; try contradiction; try first [exact I | assumption | reflexivity].
@@ -295,23 +295,24 @@ Definition loop_rel (acc : list field) (a : dec * list field * Z) (b : option (r
   | None => st <> 0 \/ dsave dd <> []
   end.
 
-Lemma parse_loop_rfc : forall fuel d t p acc, wf_bytes p = true -> trel d t ->
-  loop_rel acc (parse_loop huff_decode_spec fuel d p acc) (rfc_block fuel (dallowed d) t p).
+Lemma parse_loop_rfc : forall fuel first d t p acc, wf_bytes p = true -> trel d t ->
+  loop_rel acc (parse_loop huff_decode_spec fuel first d p acc) (rfc_block fuel (dallowed d) first t p).
 Proof.
-  induction fuel as [|f IH]; intros d t p acc Hw Hrel.
+  induction fuel as [|f IH]; intros first d t p acc Hw Hrel.
   - destruct p as [|b p0]; cbn [parse_loop rfc_block loop_rel].
     + split; [discriminate|]. cbn [dsave ddt]. split; [reflexivity|split; [reflexivity|split; [reflexivity|exact Hrel]]].
     + split; [discriminate|]. left. discriminate.
   - destruct p as [|b p0]; cbn [parse_loop rfc_block].
     + cbn [loop_rel]. split; [discriminate|]. cbn [dsave ddt]. split; [reflexivity|split; [reflexivity|split; [reflexivity|exact Hrel]]].
-    + pose proof (parse_repr_rfc d t (b :: p0) Hw Hrel) as Hr.
-      destruct (parse_repr huff_decode_spec d (b :: p0)) as [[d' o] rest| |c|] eqn:E1;
-        destruct (rfc_repr (dallowed d) t (b :: p0)) as [[t' o'] rest'|] eqn:E2; cbn [res_rel] in Hr; try contradiction.
+    + pose proof (parse_repr_rfc first d t (b :: p0) Hw Hrel) as Hr.
+      destruct (parse_repr huff_decode_spec first d (b :: p0)) as [[d' o] rest| |c|] eqn:E1;
+        destruct (rfc_repr (dallowed d) first t (b :: p0)) as [[t' o'] rest'|] eqn:E2; cbn [res_rel] in Hr; try contradiction.
       * destruct Hr as [Hrel' [Hal [<- [<- Hwr]]]].
-        specialize (IH d' t' rest (match o with Some x => x :: acc | None => acc end) Hwr Hrel').
+        specialize (IH (next_first first o) d' t' rest (match o with Some x => x :: acc | None => acc end) Hwr Hrel'). unfold next_first in IH.
         rewrite Hal in IH.
-        destruct (parse_loop huff_decode_spec f d' rest (match o with Some x => x :: acc | None => acc end)) as [[dd acc'] st].
-        destruct (rfc_block f (dallowed d) t' rest) as [[t'' fs]|]; cbn [loop_rel] in *.
+        unfold next_first.
+        destruct (parse_loop huff_decode_spec f (match o with Some _ => false | None => first end) d' rest (match o with Some x => x :: acc | None => acc end)) as [[dd acc'] st].
+        destruct (rfc_block f (dallowed d) (match o with Some _ => false | None => first end) t' rest) as [[t'' fs]|]; cbn [loop_rel] in *.
         -- destruct IH as [Hnp [Hst [Hsv [Hacc Hrel'']]]]. split; [exact Hnp|].
            split; [exact Hst|split; [exact Hsv|split; [|exact Hrel'']]].
            rewrite Hacc. destruct o; cbn [rev]; [rewrite <- app_assoc|]; reflexivity.
